@@ -313,7 +313,7 @@ def simp_transform(r):
         key = json.dumps(o["out"], sort_keys=True)
         g = groups.setdefault(key, {"out": o["out"], "tags": [], "logic": "cl", "out_text": o["out_text"], "same": o["same"]})
         g["tags"].append(o["portfolio"] + "/" + o["strategy"])
-        if o["portfolio"] in ("intuitionistic", "ht"):
+        if o["portfolio"] in ("intuitionistic", "ht") or o["portfolio"].startswith("rewrite-ht"):
             g["logic"] = "ht"
     outs = [g for g in groups.values() if not g["same"]]
     r2 = {k: r[k] for k in ("id", "text", "nsyms", "syms", "f")}
@@ -342,6 +342,12 @@ def run_C07(ctx):
     V.build()
     cases = simp_cases(ctx, 500, 6000)
     recs = V.run_harness(ctx, "simplify", cases)
+    # every rewrite rule on its own (a wrong rule can be masked by a later rule of the portfolio)
+    for r in V.run_harness(ctx, "rewrites", cases, tag="-single"):
+        if r["kind"] == "simp":
+            r["text"] = r["text"] + "   [single rewrites]"
+            r["id"] = r["id"] + "/rw"
+            recs.append(r)
     rejected = [r for r in recs if r["kind"] == "reject"]
     usable, skipped, violations, seen = [], {}, [], set()
     unchanged = 0
@@ -350,6 +356,7 @@ def run_C07(ctx):
             continue
         seen.add(r["text"])
         r2 = simp_transform(r)
+        r2["id"] = r["id"]
         for pn in r2["panics"]:
             violations.append({"check": "C07.panic", "text": r["text"], "detail": f"anthem panicked in {pn['portfolio']}/{pn['strategy']}: {pn['panic']}", "record": r})
         if not r2["outs"]:
